@@ -5,7 +5,7 @@ HONEST = "admin is honest in conservation workloads: resume = identity or re-bas
 ZERO = "zero-amount bank sends / transfers are accepted as no-ops by the simulator"
 
 
-def hist(props, qh=12, qs=250, ts=1500, extra=None):
+def hist(props, qh=48, qs=250, ts=1500, extra=None):
     def mk(tier, seed, i, n, budget):
         a = ["hist", "--props", props, "--seed", str(seed), "--shard", str(i)]
         if tier == "quick":
@@ -55,9 +55,10 @@ CHECKS = {
         "assumptions": [SIM, HONEST],
     },
     "C05": {
-        "level": "exploration", "lanes": [("hist", hist("C05"))],
-        "rule": HRULE + "; withdrawals keyed by (delivery short/exact/long, requesters in batch)",
-        "require": ["op:withdraw:ok", "withdraw_refused_no_claim", "unstake_request"],
+        "level": "exploration",
+        "lanes": [("perm", lane("c05perm", {"n": 6}, {"n": 8})), ("hist", hist("C05"))],
+        "rule": "perm lane: batches of 1..n requesters built through LiquidUnstake (uneven shares, one repeated request), 6 delivery sizes (1, expected-1, expected, expected+1, 10x, 3), ALL n! withdrawal orders with interleaved noise (foreign and double withdrawals, a stake, a reward); every payout compared with floor(received*own/total) and across orders. hist lane: " + HRULE + "; withdrawals keyed by (delivery short/exact/long, requesters in batch)",
+        "require": ["op:withdraw:ok", "withdraw_refused_no_claim", "unstake_request", "c05perm:orders"],
         "assumptions": [SIM, "batch total equals the sum of requests ever made (a request is deleted when paid)"],
     },
     "C06": {
@@ -67,9 +68,10 @@ CHECKS = {
         "assumptions": [SIM],
     },
     "C07": {
-        "level": "exploration", "lanes": [("hist", hist("C07"))],
-        "rule": HRULE + "; packet-level history: relay outcomes, recoveries keyed by (forced, paginated, receiver-directed, packets consumed, denom), stray acks, submission faults",
-        "require": ["op:relay:ack:ok", "op:relay:err:ok", "op:relay:timeout:ok", "op:recover_pending_ibc_transfers:ok", "op:sudo:ok"],
+        "level": "fault_enumeration", "exhaustive": True,
+        "lanes": [("enum", lane("c07enum", {"k": 4}, {"k": 5})), ("hist", hist("C07"))],
+        "rule": "enum lane (exhaustive for its bounded space): for every composition of up to k outstanding packets (two denoms; receivers staker / A / B / staker-with-both-denoms) ALL assignments of {success ack, error ack, timeout} x ALL delivery orders x {recovery or duplicate ack after each delivery} x 4 final recovery flavours (receiver-directed, paginated, default, admin-forced), by DFS on world clones with the packet-history monitors evaluated after every step and an end-state check (queue empty, nothing refundable left). hist lane: " + HRULE + "; relay outcomes, recoveries keyed by (forced, paginated, receiver-directed, packets consumed, denom), stray acks, injected submission failures",
+        "require": ["op:relay:ack:ok", "op:relay:err:ok", "op:relay:timeout:ok", "op:recover_pending_ibc_transfers:ok", "op:sudo:ok", "c07enum:leaves"],
         "assumptions": [SIM, HONEST, "a packet receives exactly one of ack / timeout"],
     },
     "C11": {
@@ -86,77 +88,77 @@ CHECKS = {
     },
     "C04": {
         "level": "exploration",
-        "lanes": [("arith", lane("c04", {"cases": 60000}, {})), ("hist", hist("C04", qh=6))],
+        "lanes": [("arith", lane("c04", {"cases": 60000}, {})), ("hist", hist("C04", qh=16))],
         "rule": "arith lane: (N, L, x) triples from boundary generators (powers of two +-1, k*N/L +-1, all-ones, 10^k, tiny/huge mixes, random 128-bit) driven through ResumeContract + LiquidStake or LiquidUnstake + SubmitBatch on the real contract and compared with the harness's own 256-bit floor; unrepresentable results are skipped; distinct = (outcome class, direction, byte-length classes of N, L, x). hist lane: the same assertions on every stake / submit of random histories",
         "require": ["c04:stake-ok", "c04:submit-ok", "c04:stake-refused", "op:liquid_stake:ok", "op:submit_batch:ok"],
         "assumptions": [SIM, "triples whose exact result or new totals do not fit 128 bits are excluded, as the property states"],
     },
     "C16": {
         "level": "exploration",
-        "lanes": [("hostile", hist("C16", qh=24, qs=40, ts=60, extra=["--hostile", "400", "--extreme", "1"]))],
+        "lanes": [("hostile", hist("C16", qh=40, qs=40, ts=60, extra=["--hostile", "400", "--extreme", "1"]))],
         "rule": "random (every second one extreme-but-accepted) configuration + directed prologue + random history interleaved with hostile messages to every entry point of both contracts (valid, unauthorized, mutated JSON, unknown ids, amounts 0..10^27, every principal incl. contracts and hook accounts, Reply with arbitrary id/data, acks for any sequence, all MigrateMsg variants under every stored version, instantiate with extreme values); every call under catch_unwind with overflow checks on; a panic counts when the state before and the would-be state after have a rate inside [1e-3, 1e3]; distinct = (message kind, outcome, abstract state)",
         "require": ["op:probe:execute:ok", "op:probe:execute:fail", "op:probe:query:ok", "op:probe:reply:fail", "op:probe:migrate:fail", "op:probe:instantiate:ok", "op:probe:sudo:ok"],
         "assumptions": [SIM, "simulated block time stays below the year 2286", "panics in states whose exchange rate is outside [1e-3, 1e3] are counted but not reported (outside the property's bounds)"],
     },
     "C08": {
         "level": "exploration",
-        "lanes": [("matrix", lane("c08", {"histories": 4, "steps": 120, "every": 12}, {"histories": 1000000, "steps": 400, "every": 10}))],
+        "lanes": [("matrix", lane("c08", {"histories": 12, "steps": 120, "every": 12}, {"histories": 1000000, "steps": 400, "every": 10}))],
         "rule": "at sampled reachable states of random histories (incl. after ownership handover and monitor changes) the whole matrix (privileged message variant x principal) is executed on world clones with arguments that are valid for the rightful caller; unauthorised => must fail with the world unchanged; Withdraw is tried by every principal on every received batch; distinct = (variant, principal role, outcome, halted)",
         "require": ["c08:unauthorised_refused", "c08:rightful_ok:add_validator", "c08:rightful_ok:update_config", "c08:rightful_ok:transfer_ownership", "c08:rightful_ok:revoke_ownership_transfer", "c08:rightful_ok:resume_contract", "c08:rightful_ok:circuit_breaker", "c08:rightful_ok:accept_ownership", "c08:rightful_ok:receive_rewards", "c08:rightful_ok:receive_unstaked_tokens", "c08:rightful_ok:fee_withdraw", "c08:rightful_ok:recover_forced", "c08:handover"],
         "assumptions": [SIM, "a failed transaction is rolled back by the runtime (simulated), so 'nothing changes' is checked on the simulator state"],
     },
     "C09": {
         "level": "exploration",
-        "lanes": [("derive", lane("c09", {"triples": 400}, {"triples": 100000000}))],
+        "lanes": [("derive", lane("c09", {"triples": 2500}, {"triples": 100000000}))],
         "rule": "random and adversarial (channel, native sender, protocol prefix) triples: a deployment is configured with them and ReceiveRewards / ReceiveUnstakedTokens are sent from the account computed by the harness's own SHA-256 + bech32 (must be accepted) and from 17 near-miss derivations (must be rejected); end-to-end through the simulator's ibc-hooks; accepted account follows collector / channel updates; pre-image and account injectivity over all generated pairs; distinct = (message, near-miss family, prefix length, channel length)",
         "require": ["c09:rewards:rightful_accepted", "c09:unstaked:rightful_accepted", "c09:rejected:single-hash", "c09:rejected:bech32m", "c09:rejected:channel+1", "c09:end_to_end", "c09:follows_channel_update"],
         "assumptions": [SIM, "absence of SHA-256 collisions is not observable; injectivity is checked on the pre-image string and on the pairs generated"],
     },
     "C10": {
         "level": "exploration",
-        "lanes": [("breaker", lane("c10", {"histories": 6, "steps": 150, "every": 10}, {"histories": 1000000, "steps": 400, "every": 8}))],
+        "lanes": [("breaker", lane("c10", {"histories": 20, "steps": 150, "every": 10}, {"histories": 1000000, "steps": 400, "every": 8}))],
         "rule": "at sampled reachable states: clone A is halted (by the admin or a monitor), clone B keeps running; each of the six value-moving messages is issued with arguments for which B succeeds and must fail on A without any effect; halting and resuming are compared query-by-query and by raw storage diff; distinct = (message, who tripped, rate regime)",
         "require": ["c10:fresh_instance", "c10:halt_by_admin", "c10:halt_by_monitor", "c10:resume_checked", "c10:running_clone_succeeds:liquid_stake", "c10:running_clone_succeeds:liquid_unstake", "c10:running_clone_succeeds:submit_batch", "c10:running_clone_succeeds:receive_rewards", "c10:running_clone_succeeds:receive_unstaked_tokens"],
         "assumptions": [SIM],
     },
     "C12": {
         "level": "exploration", "exhaustive": True,
-        "lanes": [("handover", lane("c12", {"depth": 4, "random": 200}, {"depth": 5, "random": 5000}))],
+        "lanes": [("handover", lane("c12", {"depth": 4, "random": 1500}, {"depth": 5, "random": 5000}))],
         "rule": "alphabet of 19 symbols ({initial admin, a, b, stranger} x {nominate a, nominate b, revoke, accept} + wait 7d-1s / 1s / 7d); ALL sequences up to the stated depth on both contracts by prefix-tree DFS on world clones, plus random sequences of length 6-40; every step's outcome is compared with a reference state machine, the admin identity is read back (treasury Config, admin-only probes, State.pending_owner) at every leaf and after every handover; distinct = (contract, admin, nominee, clock vs deadline) at leaves",
         "require": ["c12:sequences", "c12:handovers", "c12:accept_at_-1", "c12:accept_at_0", "c12:accept_at_1", "c12:random_sequences"],
         "assumptions": [SIM],
     },
     "C13": {
         "level": "exploration",
-        "lanes": [("treasury", lane("c13", {"lists": 80}, {"lists": 100000000}))],
+        "lanes": [("treasury", lane("c13", {"lists": 600}, {"lists": 100000000}))],
         "rule": "random allow-lists (0-6 routes, 1-4 hops) x candidate routes derived from them (exact, prefix, suffix, reversed, perturbed field, extended, concatenation, splice, empty, random) x {exact-in, exact-out} x end-point denom {matching, other end, unrelated} x {trader, other}; success must equal the harness's own predicate; the emitted message is decoded by the harness's wire reader and compared with the request and with its canonical re-encoding; SpendFunds / UpdateConfig by admin and non-admins to 8 receiver classes",
         "require": ["c13:exact", "c13:prefix", "c13:suffix", "c13:concatenation", "c13:spend:ibc:ok", "c13:spend:local:ok", "c13:spend:ibc:fail", "c13:spend:local:fail"],
         "assumptions": [SIM, "bech32m and upper-case receivers are accepted by the contract's bech32 decoder and are not counted as malformed"],
     },
     "C14": {
         "level": "exploration",
-        "lanes": [("config", lane("c14", {"cases": 40}, {"cases": 100000000}))],
+        "lanes": [("config", lane("c14", {"cases": 200}, {"cases": 100000000}))],
         "rule": "valid random configurations, then field-level corruption (13 fields x families: empty, case change, truncation, checksum damage, separator damage, whitespace, prefix swap, duplicates, malformed channels / denoms / sub-denoms) at instantiation and in UpdateConfig with every subset of sections; accepted => the supplied sections satisfy the harness's own well-formedness predicate; sections not supplied, the LST denom and the halted flag are identical before/after; AddValidator / RemoveValidator sequences change exactly the named element; distinct = (entry, field, family, outcome)",
         "require": ["c14:valid_accepted", "c14:corrupted_refused", "c14:update_accepted", "c14:update_refused", "c14:validator_add:ok", "c14:validator_add:fail", "c14:validator_remove:ok", "c14:validator_remove:fail"],
         "assumptions": [SIM, "lenient readings: upper-case addresses, case-variant duplicates, channel-+5, bech32m checksums and ibc/ + 64 bytes are not counted as malformed (DESIGN.md section 6)"],
     },
     "C17": {
         "level": "exploration",
-        "lanes": [("paging", lane("c17", {"histories": 6, "steps": 150, "every": 10}, {"histories": 1000000, "steps": 500, "every": 8})), ("hist", hist("C17", qh=6))],
+        "lanes": [("paging", lane("c17", {"histories": 20, "steps": 150, "every": 10}, {"histories": 1000000, "steps": 500, "every": 8})), ("hist", hist("C17", qh=16))],
         "rule": "at sampled reachable states: Batches paged with limit in {none,0,1,2,3,n,n+1} x every status filter following the cursor, random (start_after, limit, status) triples, BatchesByIds with missing / duplicate / unsorted ids, IbcQueue paging, all compared with the unpaginated scan filtered by the harness and with the simulator's packet store; UnstakeRequests of every user compared with the reference model of open requests (also after every unstake / withdraw of the history lane)",
         "require": ["c17:states_probed", "c17:states_with_3_batches", "op:liquid_unstake:ok", "op:withdraw:ok"],
         "assumptions": [SIM],
     },
     "C18": {
         "level": "exploration",
-        "lanes": [("migrate", lane("c18", {"stores": 12}, {"stores": 100000000}))],
+        "lanes": [("migrate", lane("c18", {"stores": 60}, {"stores": 100000000}))],
         "rule": "pre-upgrade stores synthesised by the harness: a random history on the current contract, then the packet and pending-reply maps rewritten into the 1.0.0 byte layout (written by the harness itself) with random packets in every status; after V1_0_0ToV1_1_0 every record is compared (key, sequence, amount, status, denom, receiver), every other raw key must be byte-identical, recovery and acks must work; hand-written 0.4.18 / 0.4.20 configs are translated field by field; gate matrix 10 stored versions x 4 names x 3 paths (+ treasury 8 x 3) => success iff name matches and version is the path's source, refused => storage identical; distinct = gate cells + legacy store shapes",
         "require": ["c18:v1_1_0_migrated", "c18:v0_4_20_migrated", "c18:v1_0_0_migrated", "c18:gate_accepted", "c18:gate_refused", "c18:post_migration_recovery", "c18:treasury_gate"],
         "assumptions": [SIM, "transaction atomicity of migrate is the host's (simulated all-or-nothing); crash points inside a migration are not observable at the contract boundary", "legacy layouts are those of cw-storage-plus Map<u64,_> / Item and serde-json-wasm (u128 as string); a self-check confirms the current contract writes the same key layout"],
     },
     "C19": {
         "level": "exploration", "builds": ["default", "miniwasm"], "all_lanes_both": True,
-        "lanes": [("tf", lane("c19", {"histories": 6, "steps": 150}, {"histories": 400, "steps": 400}))],
+        "lanes": [("tf", lane("c19", {"histories": 16, "steps": 150}, {"histories": 400, "steps": 400}))],
         "post": "c19_compare",
         "rule": "the same seeded histories run on both cargo feature builds against the matching simulated chain; every create-denom / mint / burn message is decoded by the harness's wire reader (URL of the chain's module, sender and holder = contract, denom, amount = reference) and compared with its canonical re-encoding; a build on the other chain kind must fail to instantiate; per-step behaviour digests (result, every query, all ledgers, events with token-factory messages abstracted) of the two builds are compared for equality",
         "require": ["c19:MsgCreateDenom", "c19:MsgMint", "c19:MsgBurn", "c19:other_chain_refused", "c19:histories_compared"],
